@@ -40,6 +40,10 @@ the pooled objects and fresh objects created after all the others were configure
   closed) for graphs of allowed instances, lists, tuples, dicts, sets, frozensets, dates, decimals,
   bound methods.
 
+Round-trip families: random graphs; a directed family with cycles through immutable nodes; many instances
+with distinct state of a class whose `__getstate__` builds a fresh tuple/list/dict on every call (temporaries
+during jelly()); a policy object grown between calls.
+
 Guards: any exception out of unjelly is "raises an error"; tuples/frozensets need not keep identity;
 Decimal compared by value; dict/set members are matched by value (primitives) or by the `uid` the
 harness gives every instance.
@@ -77,7 +81,7 @@ ASSUMPTIONS = ["trusted base: the per-object policy record kept by the harness (
                "dangerous callables are represented by canaries (record + raise); the real ones are never reachable from a generated name",
                "only SecurityOptions-based policies are used (bytes/int/float atoms are always allowed by them)"]
 SHARDS = {"quick": 4, "thorough": 16}
-FLOORS = {"growing_policy_cases": 1500, "roundtrips_after_policy_growth": 1500, "persistentLoad_calls": 200, "directed_roundtrips": 3000, "immutable_nodes_in_cycles_rereferenced": 5000, "pooled_policy_cases": 10000, "fresh_policy_cases": 10000, "nothing_allowed_policy_cases": 8000, "method_atoms_generated": 3000, "inherited_or_dunder_method_names": 2000, "method_atom_cases_returned": 150, "unjelly_calls": 20000, "unjelly_returned": 3000, "unjelly_raised": 3000, "resolution_events": 1000, "objects_walked": 10000,
+FLOORS = {"fresh_state_roundtrips": 1500, "fresh_state_instances": 8000, "growing_policy_cases": 1500, "roundtrips_after_policy_growth": 1500, "persistentLoad_calls": 200, "directed_roundtrips": 3000, "immutable_nodes_in_cycles_rereferenced": 5000, "pooled_policy_cases": 10000, "fresh_policy_cases": 10000, "nothing_allowed_policy_cases": 8000, "method_atoms_generated": 3000, "inherited_or_dunder_method_names": 2000, "method_atom_cases_returned": 150, "unjelly_calls": 20000, "unjelly_returned": 3000, "unjelly_raised": 3000, "resolution_events": 1000, "objects_walked": 10000,
           "canary_selftest_trips": 10, "audit_selftest_blocks": 2, "roundtrips": 500, "roundtrip_shared_or_cyclic": 200,
           "instances_returned": 100, "dangerous_names_generated": 2000}
 READY = True
@@ -204,6 +208,27 @@ def build_modules(canaries):
     cls(o, "Secret", {"meth": method_for(o), "__new__": recording_new("Secret")})
     derived = type("Derived", (base,), {"own": named(a, "Derived.own", lambda self: "own"), "__module__": AMOD, "__qualname__": "Derived"})
     a.Derived = derived
+
+    # an allowed class whose __getstate__ builds a FRESH state object on every call (a temporary that lives
+    # only while it is being jellied) and whose __setstate__ takes it back
+    def fresh_getstate(self):
+        vals = (self.uid, self.kind, self.a, self.b)
+        if self.kind == "tuple":
+            return tuple(vals)
+        if self.kind == "list":
+            return list(vals)
+        if self.kind == "nested":
+            return (self.uid, self.kind, [self.a], {"b": self.b})
+        return {"uid": self.uid, "kind": self.kind, "a": self.a, "b": self.b}
+
+    def fresh_setstate(self, state):
+        if isinstance(state, dict):
+            self.__dict__.update(state)
+        else:
+            self.uid, self.kind, a, b = state
+            self.a, self.b = (a[0], b["b"]) if self.kind == "nested" else (a, b)
+
+    cls(a, "Fresh", {"__getstate__": named(a, "Fresh.__getstate__", fresh_getstate), "__setstate__": named(a, "Fresh.__setstate__", fresh_setstate)})
     a.construct_log = clog
     for mod, fname in ((a, "plain_function"), (o, "hidden")):
         f = types.FunctionType((lambda: "called").__code__, {}, fname)
@@ -371,7 +396,7 @@ class Policy:
 
 
 def make_policy(env, k):
-    A = (env.amod.Allowed, env.amod.Derived)
+    A = (env.amod.Allowed, env.amod.Derived, env.amod.Fresh)
     if k == 7:  # the process-wide policy object of jelly itself (basic types + what setUnjellyableForClass registered)
         pol = Policy(env, k, env.jelly.globalSecurity)
         pol.types |= BASIC_TYPES | {env.regtag}
@@ -397,7 +422,7 @@ def make_policy(env, k):
     return pol
 
 
-POLICY_NAMES = ["default (nothing allowed)", "basic", "instancesOf(Allowed,Derived)", "modules(allowed)+function/method/class/module/instance",
+POLICY_NAMES = ["default (nothing allowed)", "basic", "instancesOf(Allowed,Derived,Fresh)", "modules(allowed)+function/method/class/module/instance",
                 "instancesOf(Allowed,Derived)+function+method", "instancesOf(Allowed,Derived)+method",
                 "instancesOf(other.Secret,other.Base)+function+method", "jelly.globalSecurity",
                 "one object grown in steps (mutated between unjelly calls)"]
@@ -748,6 +773,30 @@ def gen_graph(rng, env):
     return nodes[0], shared
 
 
+def gen_fresh(rng, env):
+    """Many instances, each with DIFFERENT state, of a class whose __getstate__ returns a freshly built
+    tuple / list / dict / nested state: the state objects are temporaries during jelly()."""
+    F, A = env.amod.Fresh, env.amod.Allowed
+    n = rng.randrange(3, 14)
+    kind = rng.choice(["tuple", "list", "dict", "nested", "mixed"])
+    objs = []
+    for uid in range(n):
+        f = F()
+        f.uid, f.kind = uid, (kind if kind != "mixed" else rng.choice(["tuple", "list", "dict", "nested"]))
+        f.a, f.b = uid * 7 + rng.randrange(3), -uid
+        objs.append(f)
+    shape = rng.random()
+    if shape < 0.4:
+        return list(objs), n
+    if shape < 0.7:
+        holder = A()
+        holder.uid = 1000
+        holder.items = objs
+        holder.again = objs[rng.randrange(n)]  # one of them referenced twice: that one must stay shared
+        return [holder, objs[0]], n
+    return {"k%d" % j: o for j, o in enumerate(objs)}, n
+
+
 def gen_directed(rng, env):
     """Directed family: cycles THROUGH immutable nodes that are re-referenced later.  A small program:
     make mutable containers; make immutable nodes (tuple / frozenset / bound method of an allowed
@@ -883,7 +932,12 @@ def run_roundtrip(ctx, env, i):
     from twisted.persisted.crefutil import NotKnown
 
     rng = ctx.case_rng("rt", i)
-    if i % 3 == 2:
+    if i % 6 == 4:
+        g, nf = gen_fresh(rng, env)
+        shared = True
+        ctx.count("fresh_state_roundtrips")
+        ctx.count("fresh_state_instances", nf)
+    elif i % 3 == 2:
         g, nimm = gen_directed(rng, env)
         shared = True
         ctx.count("directed_roundtrips")
@@ -926,7 +980,7 @@ def run_growing(ctx, env, i):
     pol = Policy(env, 8)
     ctx.count("growing_policy_cases")
     run_case(ctx, env, i, forced=pol, sub="g0")
-    pol.allow_instances(env.amod.Allowed, env.amod.Derived)
+    pol.allow_instances(env.amod.Allowed, env.amod.Derived, env.amod.Fresh)
     run_case(ctx, env, i, forced=pol, sub="g1")
     pol.allow_types("method", "function")
     run_case(ctx, env, i, forced=pol, sub="g2")
